@@ -168,6 +168,10 @@ def _binop_values(op, a, b):
         return bool(a) and bool(b)
     if op == 'or':
         return bool(a) or bool(b)
+    if op == '^' and (abs(b) > 64 or abs(a) > 1e6):
+        # a wrong grouping can ask for an astronomically large power; it is
+        # enough to know that it does not give the right value
+        raise OverflowError('power too large to be worth computing')
     table = {'+': lambda: a + b, '-': lambda: a - b, '*': lambda: a * b,
              '/': lambda: a / b, '%': lambda: a % b, '^': lambda: a ** b,
              '<': lambda: a < b, '<=': lambda: a <= b, '>': lambda: a > b,
